@@ -78,6 +78,12 @@ EXPRS = [
     ("expr", "src/lib.rs", "alloc_layout_slow", ("if", 2), "slow_try_candidate_cond"),   # (if #1 is the guard inside matches!)
 ]
 EXPRS += [
+    # new_chunk: where the footer goes, the initial finger and the running total (the details record
+    # is destructured by a pattern and `data` comes from the global allocator: both are inputs)
+    ("expr", "src/lib.rs", "new_chunk", ("let", "layout", 1), "new_chunk_layout", ("size", "align")),
+    ("expr", "src/lib.rs", "new_chunk", ("let", "footer_ptr", 1), "new_chunk_footer_at", ("data", "new_size_without_footer")),
+    ("expr", "src/lib.rs", "new_chunk", ("let", "ptr", 1), "new_chunk_finger", ("data", "new_size_without_footer")),
+    ("expr", "src/lib.rs", "new_chunk", ("let", "allocated_bytes", 1), "new_chunk_allocated_bytes", ("new_size_without_footer",)),
     ("expr", "src/collections/vec.rs", "insert", ("assert", 1), "vec_insert_index_ok"),
     ("expr", "src/collections/vec.rs", "insert", ("if", 1), "vec_insert_must_grow"),
     ("expr", "src/collections/vec.rs", "insert", ("arg", "copy", 1, 0), "vec_insert_copy_src"),
@@ -112,6 +118,9 @@ FRAMES = [
     ("src/lib.rs", "reset", "reset_frees_all_but_current",
      "letprev_chunk=cur_chunk.as_ref().prev.replace(EMPTY_CHUNK.get());dealloc_chunk_list(prev_chunk);"),
     ("src/lib.rs", "reset", "reset_finger_to_footer", "cur_chunk.as_ref().ptr.set(cur_chunk.cast());"),
+    ("src/lib.rs", "new_chunk", "new_chunk_footer_written",
+     "ptr::write(footer_ptr,ChunkFooter{data,layout,prev:Cell::new(prev),ptr,allocated_bytes,},);Some(NonNull::new_unchecked(footer_ptr))"),
+    ("src/lib.rs", "new_chunk", "new_chunk_asks_allocator", "letdata=alloc(layout);letdata=NonNull::new(data)?;"),
     ("src/lib.rs", "reset", "reset_empty_is_noop", "ifself.current_chunk_footer.get().as_ref().is_empty(){return;}"),
 ]
 # methods of `self` that are functions of the table when called with one argument
@@ -769,7 +778,7 @@ def scan_body(toks):
     return lets, ifs, calls
 
 
-def extract_expr(toks, locator):
+def extract_expr(toks, locator, inputs=()):
     """(term, position) of the located expression, wrapped in the `let`s in scope it depends on"""
     lets, ifs, calls = scan_body(toks)
     vals = [t[1] for t in toks]
@@ -885,7 +894,7 @@ def extract_expr(toks, locator):
         pos, path, used = tgt["at"], tgt["path"], set(vals[spans[argi][0]:spans[argi][1]])
     # wrap the lets in scope (enclosing blocks) that the expression refers to: going backwards, a
     # binding is needed if its name is referred to by what follows and not yet bound by a later let
-    needed = set(used)
+    needed = set(used) - set(inputs)      # inputs: names supplied by the environment, not by their `let`
     wrapped = []
     for l in reversed([l for l in lets if l["at"] < pos and path[:len(l["path"])] == l["path"]]):
         if l["name"] in needed:
@@ -898,7 +907,7 @@ def extract_expr(toks, locator):
             except (Unsupported, ValueError, IndexError):
                 continue
             needed.discard(l["name"])
-            needed |= set(vals[l["start"]:l["end"]])
+            needed |= set(vals[l["start"]:l["end"]]) - set(inputs)
             wrapped.append((l["name"], rhs, True, l))
     for name, rhs, _, l in wrapped:
         term = "(ELet %s %s %s)" % (q(name), rhs, term)
@@ -993,11 +1002,13 @@ def translate(repo):
         except (Unsupported, ValueError, IndexError) as e:
             notes.append("%s: NOT TRANSLATED (%s)" % (newname, e))
     for part in EXPRS:
+        inputs = ()
         if part[0] != "expr":
             path, fname = part
             newname, locator = fname, None
         else:
-            _, path, fname, locator, newname = part
+            _, path, fname, locator, newname = part[:5]
+            inputs = part[5] if len(part) > 5 else ()
         if path not in cache:
             try:
                 cache[path] = strip_comments(open(os.path.join(repo, path)).read())
@@ -1015,7 +1026,7 @@ def translate(repo):
                 if p.i != len(p.t):
                     raise Unsupported("trailing tokens")
             else:
-                term = extract_expr(toks, locator)
+                term = extract_expr(toks, locator, inputs)
             fns.append((newname, param_names(params), fix_path_vars(term)))
         except (Unsupported, ValueError, IndexError) as e:
             notes.append("%s: NOT TRANSLATED (%s)" % (newname, e))
